@@ -218,6 +218,7 @@ def judge_case(ctx, res):
         if tid is None or tid not in tracks or tid not in prev:
             ctx.fail_harness("target track missing from observation")
             return
+        ctx.state("distinct_setter_value_pairs", fname + "=" + str(meta.get("value"))[:200])
         exp, loose = expect_after(schema, prev[tid], meta, tracks[tid])
         target_field = meta["field"] if meta["kind"] == "set" else ("hot_cues" if meta["field"] == "hot_cue" else "loops")
         ever_set[(tid, target_field)] = True
